@@ -4,7 +4,8 @@ modules today and that breaks a property for inputs the tests do not sample:
   DIM-TRUTH      a dim / axis parameter used for its truth value (`axis or -1`, `if not dim`): 0 is a legal dim and is conflated with "not given"
   DIM-MOD        `dim % rank` on a raw dim parameter: an out-of-range dim wraps around instead of being rejected
   SQUEEZE-ALL    squeeze() without an axis on a kernel result: every size-1 dimension disappears, not only the reduced ones
-  GLOBAL-STATE   a function of the numeric modules writes module-level state (a cache, a counter): results depend on the history of calls
+  GLOBAL-STATE   a function of the numeric modules writes module-level state (a counter, a cache whose key does not determine the cached value): results depend on the history of calls
+  DIM-MOD applies to wrappers and forward kernels (a backward kernel only sees dims its forward kernel accepted); MEMO-MUTABLE ignores comprehension-scoped names.
   MEMO-MUTABLE   a memoised function (lru_cache / cache) whose result is a fresh mutable container: every caller shares - and may change - one object
   RESULT-NAME    the Tensor built by an op wrapper gets a name derived from its operands: the text of the computation history is kept alive in every result
 
@@ -68,6 +69,8 @@ def check_dim_tests(model, R, P, scope='all', modules=('synapgrad.cpu_ops', 'syn
                     mods.append(x)
             R.ob(P + '.DIM-TRUTH', f.qualname, 'truth tests of %s: %s' % (sorted(dims), [norm(t)[:50] for t in truth][:3]), not truth,
                  'dim 0 is falsy: the test treats it like a missing / None dim', _loc(f, truth[0]) if truth else f.loc)
+            if m == 'synapgrad.cpu_ops' and (f.name.endswith('_backward') or f.name == 'unbroadcast'):
+                mods = []           # a backward kernel only ever sees dims its forward kernel has already accepted (NumPy rejected the others there)
             R.ob(P + '.DIM-MOD', f.qualname, 'modulo on %s: %s' % (sorted(dims), [norm(t)[:50] for t in mods][:3]), not mods,
                  'dim %% rank maps an out-of-range dim onto a legal one instead of raising (NumPy / PyTorch reject it)', _loc(f, mods[0]) if mods else f.loc)
     R.analysed['dim_test_functions'] = n
@@ -100,8 +103,9 @@ def check_squeeze_all(model, R, P, modules=('synapgrad.cpu_ops', 'synapgrad.func
 
 
 def check_global_state(model, R, P, modules=NUMERIC_MODULES + ('synapgrad.nn.init', 'synapgrad.nn.utils.data'), floor=100):
-    R.rule(P + '.GLOBAL-STATE', 'no function of the numeric modules writes module-level state (stores into / mutates a module-level container, or re-binds a global): a value computed once and cached under a '
-                                'key that omits something the result depends on is returned for other inputs', floor=floor)
+    R.rule(P + '.GLOBAL-STATE', 'no function of the numeric modules writes module-level state (stores into / mutates a module-level container, or re-binds a global); the one exception is a memo table whose key '
+                                'determines the stored value (backward slice: every parameter / array attribute the value can depend on is one the key depends on) - a value cached under a key that omits '
+                                'something it depends on (item size, dtype) is returned for other inputs', floor=floor)
     n = 0
     for m in modules:
         mod = model.modules.get(m) if hasattr(model, 'modules') and isinstance(model.modules, dict) else None
@@ -127,10 +131,137 @@ def check_global_state(model, R, P, modules=NUMERIC_MODULES + ('synapgrad.nn.ini
                     # a module-level name that is not an imported module alias
                     if base.id in getattr(f.mod, 'aliases', {}):
                         continue
+                    if _complete_memo_store(f, x, base.id):
+                        continue        # a memo table whose key determines the stored value: the table is not observable state
                     bad.append(x)
             R.ob(P + '.GLOBAL-STATE', f.qualname, 'writes to module-level state: %s' % [norm(b)[:60] for b in bad][:3], not bad,
                  'module-level state makes the result depend on earlier calls (and on whatever the cache key leaves out)', _loc(f, bad[0]) if bad else f.loc)
     R.analysed['global_state_functions'] = n
+
+
+SHAPE_ATTRS = {'shape', 'ndim', 'size', 'dtype', 'itemsize', 'strides', 'nbytes', 'flags'}
+
+
+def _stmt_positions(f):
+    """node id -> (pre-order index of its statement, ids of the loops around it)"""
+    cache = getattr(f, '_sa_positions', None)
+    if cache is not None:
+        return cache
+    pos = {}
+    counter = [0]
+
+    def visit(stmts, loops):
+        for st in stmts:
+            counter[0] += 1
+            here = counter[0]
+            inner = loops + ((id(st),) if isinstance(st, (ast.For, ast.While)) else ())
+            own = [st]
+            for fld in ('body', 'orelse', 'finalbody'):
+                sub = getattr(st, fld, None)
+                if isinstance(sub, list) and sub and isinstance(sub[0], ast.stmt):
+                    pass
+            # expressions of this statement (not of nested statements)
+            stack = [c for c in ast.iter_child_nodes(st) if not isinstance(c, ast.stmt)]
+            pos[id(st)] = (here, inner)
+            while stack:
+                n = stack.pop()
+                if isinstance(n, ast.stmt):
+                    continue
+                pos[id(n)] = (here, inner)
+                stack.extend(ast.iter_child_nodes(n))
+            for fld in ('body', 'orelse', 'finalbody'):
+                sub = getattr(st, fld, None)
+                if isinstance(sub, list) and sub and isinstance(sub[0], ast.stmt):
+                    visit(sub, inner)
+            if isinstance(st, ast.Try):
+                for h in st.handlers:
+                    visit(h.body, inner)
+    visit(f.node.body, ())
+    try:
+        f._sa_positions = pos
+    except Exception:
+        pass
+    return pos
+
+
+def _reaches(f, bind_node, use_node):
+    """may the binding statement run before the use?  (earlier in program order, or both inside one loop)"""
+    pos = _stmt_positions(f)
+    b, u = pos.get(id(bind_node)), pos.get(id(use_node))
+    if b is None or u is None:
+        return True
+    if b[0] < u[0]:
+        return True
+    return bool(set(b[1]) & set(u[1]))
+
+
+def _input_atoms(f, e, seen=None, depth=0):
+    """the inputs of f that the value of expression e can depend on: parameter names (the whole object) or `param.attr` for the array metadata attributes;
+    locals are followed through all of their bindings (flow-insensitive); module-level names and constants contribute nothing"""
+    seen = set() if seen is None else seen
+    out = set()
+    if e is None or depth > 12:
+        return out
+    if isinstance(e, ast.Attribute):
+        chain, x = [], e
+        while isinstance(x, ast.Attribute):
+            chain.append(x.attr)
+            x = x.value
+        if isinstance(x, ast.Name) and x.id in f.params and chain[-1] in SHAPE_ATTRS:
+            return {'%s.%s' % (x.id, chain[-1])}
+        return _input_atoms(f, e.value, seen, depth + 1)
+    if isinstance(e, ast.Name):
+        if e.id in f.params:
+            rebound = [n for n in ast.walk(f.node) if isinstance(n, ast.Name) and n.id == e.id and isinstance(n.ctx, ast.Store)]
+            out.add(e.id)
+            if not rebound:
+                return out
+        if (e.id, _stmt_positions(f).get(id(e), (0,))[0]) in seen:
+            return out
+        seen = seen | {(e.id, _stmt_positions(f).get(id(e), (0,))[0])}
+        for n in ast.walk(f.node):
+            if isinstance(n, (ast.Assign, ast.AugAssign, ast.For, ast.NamedExpr)) and not _reaches(f, n, e):
+                continue            # a binding that can only run after this read does not feed it
+            if isinstance(n, ast.Assign) and any(isinstance(y, ast.Name) and y.id == e.id for t in n.targets for y in ast.walk(t)):
+                out |= _input_atoms(f, n.value, seen, depth + 1)
+            elif isinstance(n, ast.AugAssign) and isinstance(n.target, ast.Name) and n.target.id == e.id:
+                out |= _input_atoms(f, n.value, seen, depth + 1)
+            elif isinstance(n, (ast.For, ast.comprehension)) and any(isinstance(y, ast.Name) and y.id == e.id for y in ast.walk(n.target)):
+                out |= _input_atoms(f, n.iter, seen, depth + 1)
+            elif isinstance(n, ast.withitem) and n.optional_vars is not None and any(isinstance(y, ast.Name) and y.id == e.id for y in ast.walk(n.optional_vars)):
+                out |= _input_atoms(f, n.context_expr, seen, depth + 1)
+            elif isinstance(n, ast.NamedExpr) and isinstance(n.target, ast.Name) and n.target.id == e.id:
+                out |= _input_atoms(f, n.value, seen, depth + 1)
+        return out
+    for ch in ast.iter_child_nodes(e):
+        if isinstance(ch, ast.expr):
+            out |= _input_atoms(f, ch, seen, depth + 1)
+        elif isinstance(ch, ast.comprehension):
+            out |= _input_atoms(f, ch.iter, seen, depth + 1)
+            for c_ in ch.ifs:
+                out |= _input_atoms(f, c_, seen, depth + 1)
+        elif isinstance(ch, ast.keyword):
+            out |= _input_atoms(f, ch.value, seen, depth + 1)
+    return out
+
+
+def _complete_memo_store(f, node, table):
+    """node is `TABLE[key] = value` (or TABLE.setdefault(key, value)) in f: True when everything the value can depend on is determined by the key"""
+    key = value = None
+    if isinstance(node, ast.Subscript) and isinstance(node.ctx, ast.Store) and isinstance(node.value, ast.Name) and node.value.id == table:
+        key = node.slice
+        for n in ast.walk(f.node):
+            if isinstance(n, ast.Assign) and any(t is node for t in n.targets):
+                value = n.value
+    elif isinstance(node, ast.Call) and isinstance(node.func, ast.Attribute) and node.func.attr == 'setdefault' and len(node.args) == 2 and isinstance(node.func.value, ast.Name) and node.func.value.id == table:
+        key, value = node.args
+    if key is None or value is None:
+        return False
+    katoms, vatoms = _input_atoms(f, key), _input_atoms(f, value)
+
+    def covered(a):
+        return a in katoms or a.split('.')[0] in katoms
+    return all(covered(a) for a in vatoms)
 
 
 IMMUTABLE_CALLS = {'tuple', 'str', 'int', 'float', 'bool', 'frozenset', 'len', 'min', 'max', 'sum', 'abs', 'round', 'repr', 'format', 'math.sqrt', 'sqrt', 'divmod', 'pow', 'hash'}
@@ -159,7 +290,8 @@ def _immutable_result(model, f, e, depth=0):
         if e.id in f.params:
             return True
         binds = [n for n in ast.walk(f.node) if isinstance(n, ast.Assign) and any(isinstance(t, ast.Name) and t.id == e.id for t in n.targets)]
-        others = [n for n in ast.walk(f.node) if isinstance(n, ast.Name) and n.id == e.id and isinstance(n.ctx, ast.Store)]
+        comp_scope = {id(y) for c in ast.walk(f.node) if isinstance(c, ast.comprehension) for y in ast.walk(c.target)}
+        others = [n for n in ast.walk(f.node) if isinstance(n, ast.Name) and n.id == e.id and isinstance(n.ctx, ast.Store) and id(n) not in comp_scope]
         if binds and len(binds) == len(others) and depth < 4:
             return all(_immutable_result(model, f, b.value, depth + 1) for b in binds)
         return False
